@@ -1,1 +1,288 @@
-// harness code mounted in serde_avro_fast (see DESIGN.md)
+// Mounted in serde_avro_fast::schema::safe::canonical_form — C08(b) canonical form text, C19 totality
+use super::*;
+use crate::schema::safe::{Array, Enum, Map, Record, RecordField, SchemaNode, Union};
+use crate::schema::{Fixed, Name};
+
+/// fmt::Write into a fixed array
+pub(crate) struct FixedStr<const N: usize> {
+	pub(crate) buf: [u8; N],
+	pub(crate) len: usize,
+}
+impl<const N: usize> FixedStr<N> {
+	pub(crate) fn new() -> Self {
+		Self { buf: [0; N], len: 0 }
+	}
+	fn push(&mut self, s: &[u8]) {
+		kani::assume(self.len + s.len() <= N);
+		let mut i = 0;
+		while i < s.len() {
+			self.buf[self.len + i] = s[i];
+			i += 1;
+		}
+		self.len += s.len();
+	}
+}
+impl<const N: usize> Write for FixedStr<N> {
+	fn write_str(&mut self, s: &str) -> std::fmt::Result {
+		self.push(s.as_bytes());
+		Ok(())
+	}
+}
+
+/// Reference Parsing Canonical Form writer, from the specification text:
+/// [PRIMITIVES] as "name"; [FULLNAMES]; [STRIP] keep only type,name,fields,symbols,items,values,size;
+/// [ORDER] name,type,fields,symbols,items,values,size; no whitespace; a named type is written in full at its
+/// first occurrence (depth-first, document order) and as its quoted fullname afterwards.
+fn ref_pcf<const N: usize>(s: &SchemaMut, key: usize, seen: &mut [bool; 8], out: &mut FixedStr<N>) {
+	let node = &s.nodes()[key];
+	match &node.type_ {
+		RegularType::Null => out.push(b"\"null\""),
+		RegularType::Boolean => out.push(b"\"boolean\""),
+		RegularType::Int => out.push(b"\"int\""),
+		RegularType::Long => out.push(b"\"long\""),
+		RegularType::Float => out.push(b"\"float\""),
+		RegularType::Double => out.push(b"\"double\""),
+		RegularType::Bytes => out.push(b"\"bytes\""),
+		RegularType::String => out.push(b"\"string\""),
+		RegularType::Array(a) => {
+			out.push(b"{\"type\":\"array\",\"items\":");
+			ref_pcf(s, a.items.idx(), seen, out);
+			out.push(b"}");
+		}
+		RegularType::Map(m) => {
+			out.push(b"{\"type\":\"map\",\"values\":");
+			ref_pcf(s, m.values.idx(), seen, out);
+			out.push(b"}");
+		}
+		RegularType::Union(u) => {
+			out.push(b"[");
+			let mut i = 0;
+			while i < u.variants.len() {
+				if i > 0 {
+					out.push(b",");
+				}
+				ref_pcf(s, u.variants[i].idx(), seen, out);
+				i += 1;
+			}
+			out.push(b"]");
+		}
+		RegularType::Record(r) => {
+			if seen[key] {
+				out.push(b"\"");
+				out.push(r.name.fully_qualified_name().as_bytes());
+				out.push(b"\"");
+				return;
+			}
+			seen[key] = true;
+			out.push(b"{\"name\":\"");
+			out.push(r.name.fully_qualified_name().as_bytes());
+			out.push(b"\",\"type\":\"record\",\"fields\":[");
+			let mut i = 0;
+			while i < r.fields.len() {
+				if i > 0 {
+					out.push(b",");
+				}
+				out.push(b"{\"name\":\"");
+				out.push(r.fields[i].name.as_bytes());
+				out.push(b"\",\"type\":");
+				ref_pcf(s, r.fields[i].type_.idx(), seen, out);
+				out.push(b"}");
+				i += 1;
+			}
+			out.push(b"]}");
+		}
+		RegularType::Enum(e) => {
+			if seen[key] {
+				out.push(b"\"");
+				out.push(e.name.fully_qualified_name().as_bytes());
+				out.push(b"\"");
+				return;
+			}
+			seen[key] = true;
+			out.push(b"{\"name\":\"");
+			out.push(e.name.fully_qualified_name().as_bytes());
+			out.push(b"\",\"type\":\"enum\",\"symbols\":[");
+			let mut i = 0;
+			while i < e.symbols.len() {
+				if i > 0 {
+					out.push(b",");
+				}
+				out.push(b"\"");
+				out.push(e.symbols[i].as_bytes());
+				out.push(b"\"");
+				i += 1;
+			}
+			out.push(b"]}");
+		}
+		RegularType::Fixed(f) => {
+			if seen[key] {
+				out.push(b"\"");
+				out.push(f.name.fully_qualified_name().as_bytes());
+				out.push(b"\"");
+				return;
+			}
+			seen[key] = true;
+			out.push(b"{\"name\":\"");
+			out.push(f.name.fully_qualified_name().as_bytes());
+			out.push(b"\",\"type\":\"fixed\",\"size\":");
+			// sizes used by the harnesses are single digits
+			out.push(&[b'0' + (f.size % 10) as u8]);
+			out.push(b"}");
+		}
+	}
+}
+
+fn key(i: usize) -> SchemaKey {
+	SchemaKey::from_idx(i)
+}
+use crate::schema::verif::{name, sstring};
+use std::mem::ManuallyDrop as MD;
+
+/// Vec over a stack array (never dropped/grown): heap-allocated graphs give no verdict (every `match` arm is
+/// unfolded at every recursion level), stack-built ones are folded.
+fn raw_vec<T, const K: usize>(a: &mut MD<[T; K]>) -> Vec<T> {
+	unsafe { Vec::from_raw_parts(a.as_mut_ptr(), K, K) }
+}
+fn node(t: RegularType) -> SchemaNode {
+	SchemaNode { type_: t, logical_type: None }
+}
+fn schema_of<const K: usize>(storage: &mut MD<[SchemaNode; K]>) -> MD<SchemaMut> {
+	MD::new(SchemaMut { nodes: raw_vec(storage), schema_json: None })
+}
+
+fn compare_pcf<const N: usize>(schema: &SchemaMut) {
+	let mut st = MD::new(WriteCanonicalFormState {
+		w: ErrorConversionWriter(FixedStr::<N>::new()),
+		named_type_written: vec![false; schema.nodes().len()],
+		unnamed_type_being_written: vec![false; schema.nodes().len()],
+	});
+	let r = st.write_canonical_form(schema, SchemaKey::from_idx(0));
+	assert!(r.is_ok(), "c08_pcf: canonical form of a valid graph failed");
+	let mut want = FixedStr::<N>::new();
+	let mut seen = [false; 8];
+	ref_pcf(schema, 0, &mut seen, &mut want);
+	let got = &st.w.0;
+	assert!(got.len == want.len, "c08_pcf: canonical form length differs from the specification's");
+	let mut i = 0;
+	while i < want.len {
+		assert!(got.buf[i] == want.buf[i], "c08_pcf: canonical form text differs from the specification's");
+		i += 1;
+	}
+	std::mem::forget(r);
+}
+
+// @harness props=C08 tier=quick timeout=1800
+// @bound Parsing Canonical Form text vs the reference writer on graph G1: record ns.r {a: long(timestamp-millis: logical type must be dropped), b: [null, ns.r] (self reference by name), c: enum e{x,y}, d: fixed f(4), e: array<map<e>> (second occurrence of e by name)}; output <= 260 bytes
+#[kani::proof]
+#[kani::unwind(262)]
+#[kani::stub(alloc::fmt::format, crate::verif::stub_format)]
+fn c08_pcf_graph1() {
+	let mut fields = MD::new([
+		RecordField { name: sstring("a"), type_: key(1) },
+		RecordField { name: sstring("b"), type_: key(2) },
+		RecordField { name: sstring("c"), type_: key(4) },
+		RecordField { name: sstring("d"), type_: key(5) },
+		RecordField { name: sstring("e"), type_: key(6) },
+	]);
+	let mut uvars = MD::new([key(3), key(0)]);
+	let mut syms = MD::new([sstring("x"), sstring("y")]);
+	let mut storage = MD::new([
+		/*0*/ node(RegularType::Record(Record { fields: raw_vec(&mut fields), name: name("ns.r", Some(2)) })),
+		/*1*/ SchemaNode { type_: RegularType::Long, logical_type: Some(crate::schema::safe::LogicalType::TimestampMillis) },
+		/*2*/ node(RegularType::Union(Union { variants: raw_vec(&mut uvars) })),
+		/*3*/ node(RegularType::Null),
+		/*4*/ node(RegularType::Enum(Enum { symbols: raw_vec(&mut syms), name: name("e", None) })),
+		/*5*/ node(RegularType::Fixed(Fixed { size: 4, name: name("f", None) })),
+		/*6*/ node(RegularType::Array(Array { items: key(7) })),
+		/*7*/ node(RegularType::Map(Map { values: key(4) })),
+	]);
+	let schema = schema_of(&mut storage);
+	compare_pcf::<260>(&schema);
+}
+
+// @harness props=C08 tier=quick timeout=1800
+// @bound PCF text on graph G2: union root [string, bytes, double, float, int, boolean, record r2{f: fixed a.g(9), g: a.g again (by name), h: r2 itself}], output <= 200 bytes
+#[kani::proof]
+#[kani::unwind(202)]
+#[kani::stub(alloc::fmt::format, crate::verif::stub_format)]
+fn c08_pcf_graph2() {
+	let mut uvars = MD::new([key(1), key(2), key(3), key(4), key(5), key(6), key(7)]);
+	let mut fields = MD::new([
+		RecordField { name: sstring("f"), type_: key(8) },
+		RecordField { name: sstring("g"), type_: key(8) },
+		RecordField { name: sstring("h"), type_: key(7) },
+	]);
+	let mut storage = MD::new([
+		/*0*/ node(RegularType::Union(Union { variants: raw_vec(&mut uvars) })),
+		/*1*/ node(RegularType::String),
+		/*2*/ node(RegularType::Bytes),
+		/*3*/ node(RegularType::Double),
+		/*4*/ node(RegularType::Float),
+		/*5*/ node(RegularType::Int),
+		/*6*/ node(RegularType::Boolean),
+		/*7*/ node(RegularType::Record(Record { fields: raw_vec(&mut fields), name: name("r2", None) })),
+		/*8*/ node(RegularType::Fixed(Fixed { size: 9, name: name("a.g", Some(1)) })),
+	]);
+	let schema = schema_of(&mut storage);
+	compare_pcf::<200>(&schema);
+}
+
+// =============================================================================================
+// C19: fingerprinting any builder graph returns Ok/Err (no unbounded recursion, no panic)
+
+fn total_case<const K: usize>(storage: &mut MD<[SchemaNode; K]>) -> bool {
+	let schema = schema_of(storage);
+	let r = schema.canonical_form_rabin_fingerprint();
+	let ok = r.is_ok();
+	std::mem::forget(r);
+	ok
+}
+
+// @harness props=C19 tier=quick timeout=1200
+// @bound fingerprinting of builder graphs that are NOT cycles through unnamed nodes: empty node list, dangling keys (array/map/union/record field pointing past the end), record containing itself directly and through an array, shared named node; must return Ok/Err within recursion depth 33 (unwinding assertion; unwind 34 also covers the 24-byte literals fed to the hasher)
+#[kani::proof]
+#[kani::unwind(34)]
+#[kani::stub(alloc::fmt::format, crate::verif::stub_format)]
+fn c19_fingerprint_total() {
+	// empty graph
+	let mut g0: MD<[SchemaNode; 0]> = MD::new([]);
+	total_case(&mut g0);
+	// dangling keys
+	let mut g1 = MD::new([node(RegularType::Array(Array { items: key(1) }))]);
+	total_case(&mut g1);
+	let mut g2 = MD::new([node(RegularType::Map(Map { values: key(7) }))]);
+	total_case(&mut g2);
+	let mut uv = MD::new([key(1), key(2)]);
+	let mut g3 = MD::new([node(RegularType::Union(Union { variants: raw_vec(&mut uv) })), node(RegularType::Null)]);
+	total_case(&mut g3);
+	// record containing itself directly and through an array (named: must terminate by name reference)
+	let mut f4 = MD::new([RecordField { name: sstring("a"), type_: key(0) }, RecordField { name: sstring("b"), type_: key(1) }]);
+	let mut g4 = MD::new([
+		node(RegularType::Record(Record { fields: raw_vec(&mut f4), name: name("r", None) })),
+		node(RegularType::Array(Array { items: key(0) })),
+	]);
+	assert!(total_case(&mut g4), "c19: record containing itself by name is a valid graph");
+	// an unnamed node shared by two parents (DAG, no cycle) is fine
+	let mut f5 = MD::new([RecordField { name: sstring("a"), type_: key(1) }, RecordField { name: sstring("b"), type_: key(1) }]);
+	let mut g5 = MD::new([
+		node(RegularType::Record(Record { fields: raw_vec(&mut f5), name: name("r", None) })),
+		node(RegularType::Array(Array { items: key(2) })),
+		node(RegularType::Long),
+	]);
+	assert!(total_case(&mut g5), "c19: DAG sharing an unnamed node rejected");
+}
+
+// @harness props=C19 tier=quick timeout=1200 finding=F6
+// @bound the class isolated as finding F6: a cycle made only of unnamed nodes (array whose items is itself; union containing itself; array<->map 2-cycle), concrete graphs; must return (an error) instead of recursing forever (recursion deeper than 33 fails the unwinding assertion)
+#[kani::proof]
+#[kani::unwind(34)]
+#[kani::stub(alloc::fmt::format, crate::verif::stub_format)]
+fn c19_fingerprint_unnamed_cycle() {
+	let mut g0 = MD::new([node(RegularType::Array(Array { items: key(0) }))]);
+	assert!(!total_case(&mut g0), "c19: a cycle through unnamed nodes has no canonical form: must be an error");
+	let mut uv = MD::new([key(1), key(0)]);
+	let mut g1 = MD::new([node(RegularType::Union(Union { variants: raw_vec(&mut uv) })), node(RegularType::Null)]);
+	assert!(!total_case(&mut g1), "c19: a cycle through unnamed nodes has no canonical form: must be an error");
+	let mut g2 = MD::new([node(RegularType::Array(Array { items: key(1) })), node(RegularType::Map(Map { values: key(0) }))]);
+	assert!(!total_case(&mut g2), "c19: a cycle through unnamed nodes has no canonical form: must be an error");
+}
